@@ -713,11 +713,17 @@ def _quit_points(ctx, rule):
     return c12.r3_quit_points(ctx, rule)
 
 
+def _heap_ownership(ctx, rule):
+    # nothing is lost on restore only if every restored node reaches the heap: the only writers of the heap are heappush(QueueItem(..))
+    # and heappop (seed C08-k collected the restored nodes in a set of QueueItems hashed by probability - exact ties collapsed)
+    return c01.r2_heap_ownership(ctx, rule)
+
+
 def rules(tier):
     return [('C08.R1', r1_uuid_gate), ('C08.R2', r2_region_agreement), ('C08.R3', r3_canonical_descent),
             ('C08.R4', r4_saved_position), ('C08.R5', r5_sav_keys), ('C08.R6', c01.r5_successor),
             ('C08.R7', c01.r4_prob_pt_coupling), ('C08.R8', c01.r1_heap_order), ('C08.R9', r9_restore_depth), ('C08.R11', r11_restore_is_verbatim),
-            ('C08.R10', _exact_float), ('C08.R12', r12_uuid_is_fresh), ('C08.R13', r13_grammar_order), ('C08.R14', _one_shot), ('C08.R15', _omn_names), ('C08.R16', _omen_save_restore), ('C08.R17', r17_session_state_per_object), ('C08.R18', _quit_points)]
+            ('C08.R10', _exact_float), ('C08.R12', r12_uuid_is_fresh), ('C08.R13', r13_grammar_order), ('C08.R14', _one_shot), ('C08.R15', _omn_names), ('C08.R16', _omen_save_restore), ('C08.R17', r17_session_state_per_object), ('C08.R18', _quit_points), ('C08.R19', _heap_ownership)]
 
 
 META = {
